@@ -34,12 +34,11 @@ RULE = (
     "the set of import statements of the client changed; distinct by case; histogram by stage and import forms."
 )
 ASSUMPTIONS = [
+    "every import statement of the original client succeeds when executed on its own (clients with a failing import, guarded by try or not, are outside the domain and counted)",
     "objects are module-level functions and tuples of the generated modules and stdlib objects: identity is stable once the module is loaded",
     "the client is formatted with RESULT preserved in whole-pipeline stages (it is the observation channel)",
 ]
 EXHAUSTIVE = {"quick": False, "thorough": False}
-PREDICATES = {}
-
 STAGES = [
     ("tracing", "fix_starred_imports"), ("tracing", "fix_reimported_names"), ("fixes", "remove_unused_imports"), ("fixes", "fix_duplicate_imports"),
     ("fixes", "sort_imports"), ("fixes", "move_imports_to_toplevel"), ("fixes", "add_missing_imports"), ("fixes", "fix_import_spacing"),
@@ -48,15 +47,21 @@ STAGES = [
 
 
 def tree_files(draw, P, M, M2):
-    """Files of the package tree; returns (files, exported) where exported[module] = names importable from it."""
+    """Files of the package tree; returns (files, info)."""
     core_all = draw(st.sampled_from([None, None, ["alpha", "beta"], ["alpha", "beta", "gamma", "KAPPA"]]))
+    init_kind = draw(st.sampled_from(["empty", "named", "star", "all", "alias", "submodule"]))
+    sub_init_kind = draw(st.sampled_from(["empty", "deep", "chain"]))
+    plain_kind = draw(st.sampled_from(["reexport", "star", "own"]))
+    return build_tree(P, M, M2, core_all, init_kind, sub_init_kind, plain_kind)
+
+
+def build_tree(P, M, M2, core_all, init_kind, sub_init_kind, plain_kind):
     core = (
         "import os\nfrom collections import OrderedDict\n\n"
         + (f"__all__ = {core_all!r}\n\n" if core_all else "")
         + f"def alpha():\n    return '{P}.core.alpha'\n\n\ndef beta():\n    return '{P}.core.beta'\n\n\n"
         + f"def gamma():\n    return '{P}.core.gamma'\n\n\ndef _private():\n    return '{P}.core._private'\n\n\nKAPPA = ('{P}.core', 'KAPPA')\n"
     )
-    init_kind = draw(st.sampled_from(["empty", "named", "star", "all", "alias", "submodule"]))
     init = {
         "empty": "",
         "named": "from .core import alpha, beta\n",
@@ -65,11 +70,9 @@ def tree_files(draw, P, M, M2):
         "alias": f"from {P}.core import alpha as alpha2, KAPPA\n",
         "submodule": "from . import core\nfrom .core import gamma\n",
     }[init_kind]
-    sub_init_kind = draw(st.sampled_from(["empty", "deep", "chain"]))
     sub_init = {"empty": "", "deep": "from .deep import delta, epsilon\n", "chain": "from ..core import alpha\nfrom .deep import *\n"}[sub_init_kind]
     deep = (f"from {P}.core import beta\n\n\ndef delta():\n    return '{P}.sub.deep.delta'\n\n\ndef epsilon():\n    return '{P}.sub.deep.epsilon'\n\n\n"
             f"LAMBDA = ('{P}.sub.deep', 'LAMBDA')\n")
-    plain_kind = draw(st.sampled_from(["reexport", "star", "own"]))
     plain = {
         "reexport": f"from {P}.core import alpha, KAPPA\nfrom {P}.sub.deep import delta\n\n\ndef zeta():\n    return '{M}.zeta'\n",
         "star": f"from {P}.core import *\nfrom {P}.sub.deep import *\n\n\ndef zeta():\n    return '{M}.zeta'\n",
@@ -77,7 +80,9 @@ def tree_files(draw, P, M, M2):
     }[plain_kind]
     other = (f"def alpha():\n    return '{M2}.alpha'\n\n\ndef beta():\n    return '{M2}.beta'\n\n\ndef delta():\n    return '{M2}.delta'\n\n\n"
              f"def zeta():\n    return '{M2}.zeta'\n\n\nKAPPA = ('{M2}', 'KAPPA')\n")
-    files = {f"{P}/__init__.py": init, f"{P}/core.py": core, f"{P}/sub/__init__.py": sub_init, f"{P}/sub/deep.py": deep, f"{M}.py": plain, f"{M2}.py": other}
+    extra = (f"from .core import alpha, KAPPA as KAPPA2\nfrom . import core\nfrom .sub.deep import delta as delta2\n\n\n"
+             f"def theta():\n    return '{P}.extra.theta'\n")
+    files = {f"{P}/extra.py": extra, f"{P}/__init__.py": init, f"{P}/core.py": core, f"{P}/sub/__init__.py": sub_init, f"{P}/sub/deep.py": deep, f"{M}.py": plain, f"{M2}.py": other}
     return files, {"init": init_kind, "sub_init": sub_init_kind, "plain": plain_kind, "core_all": bool(core_all)}
 
 
@@ -104,11 +109,16 @@ def import_items(P, M, M2, relative):
         (f"from {M} import alpha", ["alpha"], "reexport-chain"),
         (f"from {M} import delta, zeta", ["delta", "zeta"], "reexport-chain"),
         (f"from {M} import *", ["alpha", "zeta", "delta", "KAPPA"], "star-chain"),
+        (f"from {P}.extra import alpha, theta", ["alpha", "theta"], "reexport-relative"),
+        (f"from {P}.extra import KAPPA2, delta2, core", ["KAPPA2", "delta2", "core.beta"], "reexport-relative"),
+        (f"from {P}.extra import *", ["alpha", "theta", "KAPPA2"], "star-chain"),
         (f"from {P}.sub import delta", ["delta"], "reexport-sub"),
         (f"from {P}.sub import alpha", ["alpha"], "reexport-sub"),
         (f"from {M2} import alpha", ["alpha"], "same-name-other-object"),
         (f"from {M2} import alpha, beta, delta, zeta, KAPPA", ["alpha", "beta", "delta", "zeta", "KAPPA"], "same-name-other-object"),
         (f"from {M2} import *", ["alpha", "zeta"], "same-name-other-object"),
+        (f"try:\n    from {M} import zeta_missing as opt\nexcept ImportError:\n    opt = None", ["opt"], "optional-import-idiom"),
+        (f"import {M}\ntry:\n    from {M} import zeta_missing\nexcept ImportError:\n    pass", [f"{M}.zeta"], "optional-import-idiom"),
         ("import os", ["os.path.join", "os.sep"], "stdlib"),
         ("import os.path", ["os.path.join", "os.getcwd"], "stdlib-dotted"),
         ("from os import path", ["path.join"], "stdlib-from"),
@@ -121,7 +131,16 @@ def import_items(P, M, M2, relative):
         ("import re, math", ["re.compile", "math.floor"], "stdlib-stacked"),
         ("from typing import Sequence, List", ["Sequence"], "stdlib-from"),
     ]
-    if relative:
+    if relative == 2:
+        items += [
+            ("from . import deep", ["deep.delta"], "relative"),
+            ("from .. import core", ["core.alpha", "core.KAPPA"], "relative-parent"),
+            ("from .deep import delta, LAMBDA", ["delta", "LAMBDA"], "relative"),
+            ("from ..core import alpha, KAPPA", ["alpha", "KAPPA"], "relative-parent"),
+            ("from ..core import *", ["alpha", "beta"], "relative-star"),
+            ("from .. import extra", ["extra.theta"], "relative-parent"),
+        ]
+    if relative == 1:
         items += [
             ("from . import core", ["core.alpha"], "relative"),
             ("from .core import alpha, KAPPA", ["alpha", "KAPPA"], "relative"),
@@ -140,7 +159,7 @@ def cases(draw):
     uid = draw(st.integers(0, 16 ** 6 - 1))
     P, M, M2 = f"vq{uid:06x}p", f"vq{uid:06x}m", f"vq{uid:06x}o"
     files, tree_info = tree_files(draw, P, M, M2)
-    relative = draw(st.integers(0, 4)) == 0
+    relative = draw(st.sampled_from([0, 0, 0, 0, 0, 0, 1, 2]))  # 0: client at the tree root, 1: inside the package, 2: inside the sub-package
     items = import_items(P, M, M2, relative)
     chosen = draw(st.lists(st.sampled_from(items), min_size=1, max_size=5))
     lines = ["RESULT = []", ""]
@@ -148,7 +167,9 @@ def cases(draw):
     later = []
     for stmt, uses, form in chosen:
         forms.add(form)
-        place = draw(st.sampled_from(["top", "top", "top", "function", "after-def", "if", "try", "unused", "twice"]))
+        place = draw(st.sampled_from(["top", "top", "top", "function", "after-def", "if", "try", "unused", "twice", "after-own-def"]))
+        if "try:" in stmt:
+            place = "top" if place not in ("after-def",) else place
         used = draw(st.lists(st.sampled_from(uses), min_size=1, max_size=len(uses), unique=True))
         use_lines = [f"RESULT.append({u})" for u in used]
         if place == "top":
@@ -166,6 +187,12 @@ def cases(draw):
             lines += [f"def fn_{k}():", f"    {stmt}", f"    return ({', '.join(used)},)", ""]
             later.append(f"RESULT.extend(fn_{k}())")
             forms.add("inside-function")
+        elif place == "after-own-def" and "*" not in stmt and all("." not in u for u in used):
+            # the client defines the name itself first; the import rebinds it later
+            for u in used:
+                later += [f"def {u}():", f"    return 'client.{u}'", "", f"RESULT.append({u})"]
+            later += [stmt] + use_lines
+            forms.add("import-after-own-definition")
         elif place == "after-def":
             k = len(lines)
             later += [f"def helper_{k}(x):", "    return x", "", stmt] + use_lines
@@ -181,25 +208,56 @@ def cases(draw):
         else:
             lines.append(stmt)
             later += use_lines
+    missing = None
     if draw(st.integers(0, 5)) == 0:
-        later.append(f"RESULT.append({draw(st.sampled_from(MISSING_USES))})")
+        missing = draw(st.sampled_from(MISSING_USES))
+        later.append(f"RESULT.append({missing})")
         forms.add("missing-import")
     client = "\n".join(lines + [""] + later) + "\n"
     stage = draw(st.sampled_from(STAGES))
-    return {"files": files, "client": client, "client_path": f"{P}/client_mod.py" if relative else f"vq{uid:06x}c.py", "stage": list(stage),
-            "forms": sorted(forms), "tree": tree_info, "prefix": f"vq{uid:06x}"}
+    return {"files": files, "client": client, "client_path": [f"vq{uid:06x}c.py", f"{P}/client_mod.py", f"{P}/sub/client_mod.py"][relative], "stage": list(stage),
+            "forms": sorted(forms), "tree": tree_info, "prefix": f"vq{uid:06x}", "missing": missing}
 
 
-def _import_client(modname):
-    """(RESULT or None, exception class name or None, text)"""
+def _exec_client(path, modname):
+    """(RESULT so far or None, exception class name or None, text): the client executed as module `modname`
+    (parent packages imported first, so that relative imports work); RESULT survives an exception."""
+    ns = {"__name__": modname, "__file__": path, "__package__": modname.rpartition(".")[0] or None, "__builtins__": __builtins__}
+    exc = None
     try:
         with contextlib.redirect_stdout(io.StringIO()), contextlib.redirect_stderr(io.StringIO()), warnings.catch_warnings():
             warnings.simplefilter("ignore")
             with env.alarm(20):
-                mod = importlib.import_module(modname)
-        return getattr(mod, "RESULT", None), None, ""
-    except Exception as exc:  # generated programs: any exception is data
-        return None, type(exc).__name__, str(exc)[:300]
+                if ns["__package__"]:
+                    importlib.import_module(ns["__package__"])
+                with open(path) as fh:
+                    code = compile(fh.read(), path, "exec")
+                exec(code, ns)
+    except Exception as e:  # generated programs: any exception is data
+        exc = e
+    return ns.get("RESULT"), type(exc).__name__ if exc else None, str(exc)[:300] if exc else ""
+
+
+def imports_all_work(client, modname):
+    """Every import statement of the client, executed on its own as part of module `modname`, succeeds."""
+    try:
+        tree = ast.parse(client)
+    except SyntaxError:
+        return False
+    package = modname.rpartition(".")[0] or None
+    try:
+        with warnings.catch_warnings():
+            warnings.simplefilter("ignore")
+            if package:
+                importlib.import_module(package)
+            for node in ast.walk(tree):
+                if isinstance(node, (ast.Import, ast.ImportFrom)):
+                    if any(a.name.endswith("_missing") for a in node.names):
+                        continue  # the one deliberate failure: the optional-import idiom (try / except ImportError with a fallback)
+                    exec(compile(ast.unparse(node), "<import>", "exec"), {"__name__": modname, "__package__": package})
+    except Exception:
+        return False
+    return True
 
 
 def rewrite(case, root):
@@ -259,6 +317,10 @@ def evaluate(case, info=None):
         os.chdir(root)
         sys.path.insert(0, root)
         importlib.invalidate_caches()
+        modname = case["client_path"][:-3].replace("/", ".")
+        if not imports_all_work(case["client"], modname):
+            info["status"] = "out-of-domain:failing-import"
+            return []  # an import statement of the ORIGINAL client fails (guarded by try or not): outside the domain
         status, out = rewrite(case, root)
         info["status"] = status
         if status != "ok" or not isinstance(out, str):
@@ -274,14 +336,19 @@ def evaluate(case, info=None):
         with open(fmt_path, "w") as fh:
             fh.write(out)
         importlib.invalidate_caches()
-        modname = case["client_path"][:-3].replace("/", ".")
-        orig = _import_client(modname)
-        new = _import_client(modname + "_fmt")
+        orig = _exec_client(cpath, modname)
+        new = _exec_client(fmt_path, modname + "_fmt")
         info["orig_exc"] = orig[1]
         if orig[1] is not None:
-            if orig[1] == "NameError":
+            # The original fails. Only one class is judged: the failure is the NameError of the generated missing
+            # import (the tool may add that import): everything the original bound before it must be bound as before,
+            # and the rewritten client may fail with that NameError or not at all.
+            missing = case.get("missing")
+            if orig[1] == "NameError" and missing and f"'{missing.split('.')[0]}'" in orig[2] and isinstance(orig[0], list):
                 if new[1] not in (None, "NameError"):
                     fail(f"{case['stage'][1]}:rewritten-client-fails:{new[1]}", f"original: NameError {orig[2]}\nrewritten: {new[1]} {new[2]}\n--- rewritten client\n{out}")
+                elif not isinstance(new[0], list) or len(new[0]) < len(orig[0]) or any(not same_object(x, y, modname) for x, y in zip(orig[0], new[0])):
+                    fail(f"{case['stage'][1]}:name-bound-to-other-object", f"prefix of RESULT before the missing name differs\n--- rewritten client\n{out}")
             return fails
         if new[1] is not None:
             fail(f"{case['stage'][1]}:rewritten-client-fails:{new[1]}", f"{new[1]}: {new[2]}\n--- rewritten client\n{out}")
@@ -294,7 +361,7 @@ def evaluate(case, info=None):
             fail(f"{case['stage'][1]}:RESULT-length", f"{len(a)} -> {len(b)}\n--- rewritten client\n{out}")
             return fails
         for k, (x, y) in enumerate(zip(a, b)):
-            if x is not y:
+            if not same_object(x, y, modname):
                 fail(f"{case['stage'][1]}:name-bound-to-other-object", f"RESULT[{k}]: {describe(x)} -> {describe(y)}\n--- rewritten client\n{out}")
                 break
         return fails
@@ -307,6 +374,19 @@ def evaluate(case, info=None):
         shutil.rmtree(root, ignore_errors=True)
 
 
+def same_object(x, y, modname):
+    """Identity, except for functions that the client defines itself (each execution of the client creates its own)."""
+    if x is y:
+        return True
+    mx, my = getattr(x, "__module__", None), getattr(y, "__module__", None)
+    if callable(x) and callable(y) and mx == modname and my == modname + "_fmt":
+        try:
+            return x.__name__ == y.__name__ and x() == y()
+        except Exception:
+            return False
+    return False
+
+
 def describe(obj):
     try:
         if callable(obj) and getattr(obj, "__module__", "").startswith("vq"):
@@ -316,16 +396,78 @@ def describe(obj):
     return repr(obj)[:120]
 
 
+# stages that change the ORDER of import statements: sorting, moving imports to the top, re-inserting redirected imports at the top,
+# and merging a later duplicate into the first occurrence
+SORTING_STAGES = {"sort_imports", "move_imports_to_toplevel", "fix_reimported_names", "fix_duplicate_imports", "format_code", "format_code_keep_imports", "format_file"}
+
+
+def order_sensitive_imports(case):
+    """F-C18-01: the client has imports whose ORDER decides what a name means - two imports bind one name from different
+    sources, or a starred import provides a name that another import binds - and the stage sorts imports."""
+    if case["stage"][1] not in SORTING_STAGES:
+        return False
+    try:
+        tree = ast.parse(case["client"])
+    except SyntaxError:
+        return False
+    sources = {}
+    stars = []
+
+    def module_level(n):
+        # imports inside functions bind local names: they take no part in the order of the module's bindings
+        for child in ast.iter_child_nodes(n):
+            if isinstance(child, (ast.FunctionDef, ast.AsyncFunctionDef, ast.Lambda)):
+                continue
+            yield child
+            yield from module_level(child)
+
+    for node in module_level(tree):
+        if isinstance(node, ast.ImportFrom):
+            for a in node.names:
+                if a.name == "*":
+                    stars.append((node.level, node.module))
+                else:
+                    sources.setdefault(a.asname or a.name, set()).add(((node.level, node.module), a.name))
+        elif isinstance(node, ast.Import):
+            for a in node.names:
+                if a.asname:
+                    sources.setdefault(a.asname, set()).add((None, a.name))
+                else:
+                    sources.setdefault(a.name.split(".")[0], set()).add((None, a.name.split(".")[0]))
+    if any(len(v) > 1 for v in sources.values()):
+        return True
+    if stars and (len(set(stars)) > 1 or sources):
+        # a starred import next to other imports: it may provide one of their names (decided on the module's text)
+        for level, module in stars:
+            text = ""
+            for rel, content in case["files"].items():
+                if module and rel.replace("/", ".").removesuffix(".py").removesuffix(".__init__").endswith(module):
+                    text += content
+            if not module or module in ("math",):
+                text += " pi floor gamma "
+            import re as _re
+            words = set(_re.findall(r"\w+", text))
+            if "*" in text or any(name in words for name in sources) or len(set(stars)) > 1:
+                return True
+    return False
+
+
+PREDICATES = {"order_sensitive_imports": order_sensitive_imports}
+
+
 def plan(tier, seed):
     nsh = 16
     q = tier == "quick"
-    return [{"kind": "gen", "n": (3200 if q else 48000) // nsh, "seed": env.subseed(seed, ID, "gen", s), "budget_s": 85 if q else 1200} for s in range(nsh)]
+    return [{"kind": "gen", "n": (24000 if q else 240000) // nsh, "seed": env.subseed(seed, ID, "gen", s), "budget_s": 85 if q else 1200} for s in range(nsh)]
 
 
 def run_shard(spec):
     acc = Acc()
 
     def go(case):
+        if order_sensitive_imports(case):
+            acc.excluded["F-C18-01"] += 1  # known finding: sorting reorders imports that bind the same name
+            return
         info = {}
         fails = evaluate(case, info)
         classes = [f"stage:{case['stage'][1]}"] + [f"form:{f}" for f in case["forms"]] + [f"init:{case['tree']['init']}", f"plain:{case['tree']['plain']}"]
